@@ -670,7 +670,7 @@ theorem typewriter_after_clear {s : St} (i : Inv s) (txt : List Nat) (hp : Plain
     `k % W + 1` unless its line has scrolled out (`k < sc·W`); all other cells of the window are blank; the rows
     outside the window are those of `rows0`; the carriage is behind the last character. -/
 theorem typewriter_machine_closed_form {W top bottom : Nat} {rows0 : List (List Nat)} (txt : List Nat)
-    (hW : W = 40 ∨ W = 80) (h1 : 1 ≤ top) (h2 : top ≤ bottom) (h3 : bottom ≤ 24)
+    (hW : W = 40 ∨ W = 80) (h1 : 1 ≤ top) (h2 : top ≤ bottom) (h3 : bottom ≤ 25)
     (l0 : rows0.length = 25) (rl0 : ∀ x ∈ rows0, x.length = W)
     (blank : ∀ ρ γ, top ≤ ρ → ρ ≤ bottom → cell rows0 ρ γ = 32) :
     let t := TW.type W top bottom ⟨rows0, top, 1⟩ txt
@@ -730,7 +730,7 @@ theorem typewriter_closed_form {u : St} (rd : Ready u) (txt : List Nat) (hp : Pl
   obtain ⟨e1, _, e3, _, _, _⟩ := typewriter_refinement i rd.inwin rd.definite rd.nowrap txt hp
   rw [rd.home.1, rd.home.2] at e1 e3
   obtain ⟨m1, m2, m3, _, m5⟩ := typewriter_machine_closed_form (W := u.width) (top := u.top) (bottom := u.bottom)
-    (rows0 := u.chars) txt i.w i.top1 i.tb i.b24 i.clen i.rlen (fun ρ γ a b => rd.blank ρ γ a b)
+    (rows0 := u.chars) txt i.w i.top1 i.tb (Nat.le_succ_of_le i.b24) i.clen i.rlen (fun ρ γ a b => rd.blank ρ γ a b)
   have hs' : s' = consoleWrite u txt := rfl
   refine ⟨?_, ?_, ?_, ?_, ?_⟩
   · intro k hk hs; rw [hs', e1]; exact m1 k hk hs
@@ -818,6 +818,72 @@ theorem closed_form_after_any_history (ops : List Op) (txt : List Nat) (hp : Pla
       (by show 1 < (run init ops).width; have := i.w; omega) (Nat.le_refl _) i.tb i.b24]
     rfl
   rw [cell_eq, cell_eq, ec, hout (r - 1) (by rw [e1, e2] at hr; omega)]
+
+/-! ### Tandy/PCjr: the scroll window may include row 25
+
+  The invariant `Inv` (and with it the history theorems above) is about the adapters whose VIEW PRINT stops at
+  row 24 (`tandy = false`).  The model itself also runs the Tandy/PCjr configuration (`initTandy`; it is compared
+  with real `video='tandy'`/`'pcjr'` sessions on every run), the reference typewriter and its closed form
+  (`typewriter_machine_closed_form`) cover windows up to row 25, and the following are proved of the model. -/
+
+/-- which adapters accept `VIEW PRINT t TO 25`: exactly Tandy/PCjr; the window then ends on row 25, the cursor
+    goes to its first cell and a `LOCATE 25` permission is dropped -/
+theorem view_print_to_row25 (s : St) (t : Int) (h1 : 1 ≤ t) (h2 : t ≤ 25) :
+    (s.tandy = true → ∃ u, viewPrint s (some (t, 25)) = .ok u ∧ u.top = t.toNat ∧ u.bottom = 25 ∧ u.active = true ∧
+        u.row = t.toNat ∧ u.col = 1 ∧ u.overflow = false ∧ u.bottomAllowed = false ∧ u.chars = s.chars) ∧
+    (s.tandy = false → viewPrint s (some (t, 25)) = .error 5) := by
+  constructor
+  · intro ht
+    unfold viewPrint
+    simp only [ht, if_true]
+    rw [if_neg (by simp [inRange_iff]; omega), if_neg (by omega)]
+    exact ⟨_, rfl, rfl, rfl, rfl, rfl, rfl, rfl, rfl, rfl⟩
+  · intro ht
+    unfold viewPrint
+    simp only [ht, Bool.false_eq_true, if_false]
+    rw [if_pos (by simp [inRange_iff])]
+    rfl
+
+/-- a window that ends on row 25 survives SCREEN/WIDTH changes as `VIEW PRINT 1 TO 25`; any other is dropped -/
+theorem mode_change_keeps_row25_window (s : St) (m w : Nat) :
+    (s.bottom = 25 → (resetMode s m w).top = 1 ∧ (resetMode s m w).bottom = 25 ∧ (resetMode s m w).active = true) ∧
+    (s.bottom ≠ 25 → (resetMode s m w).top = 1 ∧ (resetMode s m w).bottom = 24 ∧ (resetMode s m w).active = false) := by
+  have key : ∀ u : St, (setPos u u.top 1 true).top = u.top ∧ (setPos u u.top 1 true).bottom = u.bottom ∧
+      (setPos u u.top 1 true).active = u.active := by
+    intro u
+    have e : ∀ (v : St) (ok : Bool), (wrapAround v ok).top = v.top ∧ (wrapAround v ok).bottom = v.bottom ∧
+        (wrapAround v ok).active = v.active := by
+      intro v ok
+      rw [wrapAround_eq]
+      split
+      · exact ⟨rfl, rfl, rfl⟩
+      · unfold wrapRow wrapCol
+        simp only []
+        repeat' split
+        all_goals simp
+    unfold setPos
+    simp only []
+    split <;> exact e _ _
+  constructor
+  · intro hb
+    unfold resetMode
+    simp only [hb, height, decide_true, if_true]
+    exact key _
+  · intro hb
+    unfold resetMode
+    have : decide (s.bottom = height) = false := by simp [height, hb]
+    simp only [this, Bool.false_eq_true, if_false]
+    exact key _
+
+/-- an instance on the model's Tandy machine: `VIEW PRINT 24 TO 25`, a line above the window, three short lines
+    with newline — the two-row window scrolls twice as a whole (row 25 included), the row above is untouched,
+    the cursor waits on row 25 -/
+theorem tandy_window_scrolls_row25 :
+    let s := run initTandy [.print [88] false, .viewPrint (some (24, 25)), .print [65] true, .print [66] true,
+                            .print [67] true]
+    cell s.chars 1 1 = 88 ∧ cell s.chars 24 1 = 67 ∧ cell s.chars 25 1 = 32 ∧ (csrlin s, pos s) = (25, 1) ∧
+    (s.top, s.bottom) = (24, 25) := by
+  decide +kernel
 
 /-! ### the unrepaired code: counterexamples -/
 
